@@ -42,3 +42,10 @@ func (m *P2PMessaging) VerifNewSpanForReceive(
 	ctx, span, _ := newSpanForReceive(ctx, m.P2P, traceContext, msg, p2pMsg)
 	return ctx, func() { span.End() }
 }
+
+// VerifRunHandleMessages runs the receive loop (P2PMessaging.runHandleMessages), which takes
+// validated messages from P2P.GossipMessages and dispatches them, until ctx is done or the loop
+// itself gives up.
+func (m *P2PMessaging) VerifRunHandleMessages(ctx context.Context) error {
+	return m.runHandleMessages(ctx)
+}
